@@ -57,15 +57,18 @@ def strategy(tier):
     base = rc.stack_strategy(1, 4, surface='no_dynamic_liquid', freq_log=(-5.5, -3.0), solve_for_max=4)
     # iface_eps > 0: every interface is sampled on both sides (last slice of the lower layer at r_i, first slice of the upper
     # layer at r_i (1 + eps)) - the usual way to tabulate a discontinuous profile
+    # hi: a quarter of the planets are solved at a high degree (7-10) from a start radius high in the planet (0.1-0.5 R, what the
+    # documentation recommends for high degrees): the regime in which the starting vectors leave their small-argument branches
+    hi = st.one_of(st.none(), st.none(), st.none(), st.tuples(st.integers(7, 10), st.floats(-1.0, -0.3)).map(list))
     return st.tuples(base, st.floats(-2.0, 2.0), st.sampled_from(['RK45', 'DOP853', 'RK23']),
-                     st.sampled_from([0.0, 0.0, 1e-12, 1e-9, 1e-6])).map(
-        lambda t: dict(t[0], loga=t[1], alt_method=t[2], iface_eps=t[3]))
+                     st.sampled_from([0.0, 0.0, 1e-12, 1e-9, 1e-6]), hi).map(
+        lambda t: dict(t[0], loga=t[1], alt_method=t[2], iface_eps=t[3], hi=t[4]))
 
 
 def in_domain(case):
     try:
         return rc.stack_in_domain(case, 4) and -2 <= case['loga'] <= 2 and case['alt_method'] in ('RK45', 'DOP853', 'RK23') \
-            and case['logfreq'] >= -5.5
+            and case['logfreq'] >= -5.5 and (case.get('hi') is None or (7 <= case['hi'][0] <= 10 and -1.0 <= case['hi'][1] <= -0.3))
     except Exception:
         return False
 
@@ -115,6 +118,8 @@ def _love(sol):
 
 
 def evaluate(case):
+    if case.get('hi') is not None:
+        case = dict(case, l=int(case['hi'][0]), logr0=float(case['hi'][1]))
     spec = rc.spec_from_case(case)
     ks = [tuple(k) for k in case['kinds']]
     if spec['opts']['method'] == 'RK23':
@@ -126,6 +131,8 @@ def evaluate(case):
               'surface:' + rc.kind_name(ks[-1])]
     if any(k[0] == 'liquid' for k in ks):
         labels.append('has_liquid')
+    if case.get('hi') is not None:
+        labels.append('high_degree_high_start')
     if spec.get('iface_eps', 0.0) > 0.0 and len(ks) > 1:
         labels.append('interfaces_sampled_twice')
     if any(k[0] == 'liquid' and not k[1] for k in ks):
